@@ -126,21 +126,60 @@ Definition o_visit_ok (o : cview) : bool :=
   forallb (fun p : Z * list Z => visit_ok o (fst p) (snd p)) (combine node_ids (o_visit o))
   && forallb (fun e : Z * list Z => visit_ok o (fst e) (snd e)) (o_matchable o).
 
+(* recorded requests of the assigned pods = requests of the object delivered last for each of
+   them (L: delivered objects, newest first) *)
+Definition v_ghost_ok (L : list preq) (v : iview) : bool :=
+  forallb (fun q : Z * list Z =>
+             match last_req (fst q) L with
+             | Some r => eq_listZ (snd q) (vals r)
+             | None => false
+             end) (v_assigned v).
+
 (* clause numbers:
      1 ledger exact (allocated = held)      2 ledger bounds (0 <= allocated <= held)
      3 index soundness                      4 index completeness
      5 allocate-once gate                   6 visited reservations available / parsed / gated
      7 IsMatchable agrees with its definition
-   [stable] : the history so far kept node names stable (hypothesis of 3, 4, 6) *)
-Definition prop_view (stable : bool) (o : cview) : Z :=
+     9 recorded requests = last delivered object (with 1: allocated = sum over the assigned pods
+       of mask(names, request of the last delivered object))
+   [stable] : the history so far kept node names stable (hypothesis of 3, 4, 6)
+   [last]   : Some L while every delivery so far was recorded consistently (hypothesis of 9) *)
+Definition prop_view (stable : bool) (last : option (list preq)) (o : cview) : Z :=
   if negb (forallb v_bounds_ok (o_infos o)) then 2
   else if negb (forallb v_exact_ok (o_infos o)) then 1
+  else if match last with Some L => negb (forallb (v_ghost_ok L) (o_infos o)) | None => false end then 9
   else if negb (forallb v_once_ok (o_infos o)) then 5
   else if negb (forallb v_matchable_def (o_infos o)) then 7
   else if stable && negb (o_sound o) then 3
   else if stable && negb (o_complete o) then 4
   else if stable && negb (o_visit_ok o) then 6
   else 0.
+
+(* a scheduling cycle that put pod pu into reservation t: judged on the dumps before (a) and
+   after (b) the cycle.  10: t was allocate-once and already held a pod.  11: t is Restricted
+   and now holds more than allocatable - reserved in a dimension the pod asked for, or more pods
+   than it reserved *)
+Definition has_pod (u : Z) (v : iview) : bool :=
+  existsb (fun q : Z * list Z => fst q =? u) (v_assigned v).
+Definition sched_gate_ok (a : iview) : bool := negb (v_once a && negb (is_nil (v_assigned a))).
+Definition sched_fit_ok (a b : iview) (req : res) : bool :=
+  negb (v_policy a =? 2)
+  || (forallb (fun pk : nat * Z =>
+                 negb (memZ (snd pk) (v_names a) && hask (snd pk) req && (0 <? getv (snd pk) req))
+                 || (nthZ (fst pk) (v_allocated b) <=? nthZ (fst pk) (v_cap a))) positions
+      && ((nthZ 4 (v_allocatable a) =? -1)
+          || (Z.of_nat (length (v_assigned b)) <=? nthZ 4 (v_allocatable a)))).
+Definition sched_pairs (pu t : Z) (prev cur : list iview) (f : iview -> iview -> bool) : bool :=
+  forallb (fun b => negb ((v_uid b =? t) && has_pod pu b)
+                    || forallb (fun a => negb (v_uid a =? t) || has_pod pu a || f a b) prev) cur.
+Definition sched_code (h : hop) (prev cur : list iview) : Z :=
+  match h with
+  | HSchedule pu req n t =>
+    if negb (sched_pairs pu t prev cur (fun a _ => sched_gate_ok a)) then 10
+    else if negb (sched_pairs pu t prev cur (fun a b => sched_fit_ok a b req)) then 11
+    else 0
+  | _ => 0
+  end.
 
 (* ==================================================================================== *)
 (* C. decision procedures for the pure streams                                           *)
